@@ -2211,7 +2211,11 @@ class Network(Cached):
 
         :rtype: float between 0 and 1
         """
-        return self.graph.transitivity_undirected()
+        #  igraph counts reciprocal links of a directed graph as parallel
+        #  edges, which makes the result depend on the node numbering:
+        #  directions are ignored explicitly instead
+        graph = self.graph.as_undirected() if self.directed else self.graph
+        return graph.transitivity_undirected()
 
     def higher_order_transitivity(self, order, estimate=False):
         """
